@@ -7,13 +7,20 @@
    The period step is a sequence of ATOMIC NODE ACTIONS, in the order of sim.step:
      orders phase   : for n in (post-order DFS from the source nodes): gen_demand n; recv_orders n; place_order n
      shipments phase: for n in (DFS, a node once all its predecessors are done): recv_ship n; produce n; serve n;
-                      fill_rate n; propagate n
+                      fill_rate n   (serve also puts each shipment into the successor's pipeline)
      then costs are read off the end-of-period state and next_period shifts the pipelines.
    State = two association maps keyed by (field, node, neighbour): rationals and pipelines (lists).
    Ghost fields (not in the implementation, never compared with it; used only by the invariants):
      fPIO  inbound order received but not yet served (equals fIO between the two phases),
      fcIO fcOS fcIS fcOQ fCP  cumulative inbound orders / outbound shipments / inbound shipments / order quantities /
-     units produced.  The serve action consumes fPIO (so that running an action twice cannot double-serve). *)
+     units produced; fSRV cumulative orders served (taken out of the inventory level), fPEND node total of fPIO,
+     fLOST what the end-of-period shift of an order pipeline dropped from slot 0 (provably 0 under the traversal order).
+     The serve action consumes fPIO (so that running an action twice cannot double-serve).
+   Two harmless re-orderings w.r.t. the Python text, both validated by the correspondence on every run: a shipment is put
+   into the successor's pipeline inside serve_one (Python: _propagate_shipment_downstream, after all successors are
+   served; nothing reads those pipelines in between), and the held-items entry of the external customer is written
+   like the others (Python skips it; the value written is 0). State values are not normalised (no Qred): the
+   correspondence feeds integer quantities, for which denominators stay 1. *)
 From SV Require Export Base.Qx Base.Amap.
 From Coq Require Export NArith.
 
@@ -22,7 +29,7 @@ Inductive fld :=
   | fIL | fBO | fODI | fIDI | fRM | fOO | fDC | fDMC | fPFG          (* carried from period to period *)
   | fIO | fOS | fIS | fOQ | fOQFG | fDMFS | fFR                      (* per-period record fields *)
   | fSP | fOP                                                        (* pipelines (list-valued) *)
-  | fPIO | fcIO | fcOS | fcIS | fcOQ | fCP.                           (* ghost *)
+  | fPIO | fcIO | fcOS | fcIS | fcOQ | fCP | fSRV | fPEND | fLOST.    (* ghost *)
 Definition key := (fld * N * nb)%type.
 
 Definition nb_eq_dec : forall a b : nb, {a = b} + {a <> b}.
@@ -35,7 +42,7 @@ Proof. decide equality; [apply nb_eq_dec|]. decide equality; [apply N.eq_dec|app
 Record st := { qm : amap key Q; lm : amap key (list Q) }.
 Definition gq (s : st) (k : key) : Q := aget key_eq_dec 0 (qm s) k.
 Definition gl (s : st) (k : key) : list Q := aget key_eq_dec [] (lm s) k.
-Definition sq (s : st) (k : key) (v : Q) : st := {| qm := aset key_eq_dec (qm s) k (Qred v); lm := lm s |}.
+Definition sq (s : st) (k : key) (v : Q) : st := {| qm := aset key_eq_dec (qm s) k v; lm := lm s |}.
 Definition sl (s : st) (k : key) (v : list Q) : st := {| qm := qm s; lm := aset key_eq_dec (lm s) k v |}.
 Definition addq (s : st) (k : key) (v : Q) : st := sq s k (gq s k + v).
 Definition empty_st : st := {| qm := []; lm := [] |}.
@@ -46,12 +53,12 @@ Definition zero0 (l : list Q) : list Q := match l with [] => [] | _ :: r => 0 ::
 Fixpoint add_at (i : nat) (v : Q) (l : list Q) : list Q :=
   match l, i with
   | [], _ => []
-  | a :: r, O => Qred (a + v) :: r
+  | a :: r, O => (a + v) :: r
   | a :: r, S i' => a :: add_at i' v r
   end.
 (* sim._initialize_next_period_state_vars: new[0] = old[0] + old[1]; new[s] = old[s+1]; last = 0 *)
 Definition shift_sp (l : list Q) : list Q :=
-  match l with [] => [] | [a] => [a] | a :: b :: r => Qred (a + b) :: r ++ [0] end.
+  match l with [] => [] | [a] => [a] | a :: b :: r => (a + b) :: r ++ [0] end.
 Definition shift_op (l : list Q) : list Q := match l with [] => [] | _ :: r => r ++ [0] end.
 
 (* ---- configuration ---- *)
@@ -128,6 +135,7 @@ Definition recv_order_one (n : N) (s : st) (c : nb) : st :=
   let s := sl s (fOP, n, c) (zero0 pipe) in
   let s := addq s (fDC, n, Ext) x in
   let s := addq s (fPIO, n, c) x in
+  let s := addq s (fPEND, n, Ext) x in
   addq s (fcIO, n, c) x.
 Definition recv_orders (s : st) (n : N) : st := fold_left (recv_order_one n) (customers (C n)) s.
 
@@ -141,7 +149,8 @@ Definition obs_ip (s : st) (n : N) : Q :=
   | EBS _ => echelon_ip s n - qsumf (fun c => gq s (fIO, n, c)) (customers (C n))
   | _ => local_ip s n
   end.
-Definition order_qty (s : st) (n : N) : Q := capped (C n) (rule (pol (C n)) (obs_ip s n)).
+(* Qred: normal form only (keeps denominators from growing when the echelon position averages over suppliers) *)
+Definition order_qty (s : st) (n : N) : Q := Qred (capped (C n) (rule (pol (C n)) (obs_ip s n))).
 
 Definition place_one (n : N) (oq : Q) (s : st) (p : nb) : st :=
   let c := C n in
@@ -214,9 +223,14 @@ Definition serve_one (n : N) (acc : st * Q) (c : nb) : st * Q :=
   let s := addq s (fDMC, n, Ext) (o_dmfs o) in
   let s := addq s (fIL, n, Ext) (- io) in
   let s := sq s (fBO, n, c) (o_bo o) in
-  let s := match c with Nd _ => sq s (fODI, n, c) (o_odi o) | Ext => s end in
+  let s := sq s (fODI, n, c) (o_odi o) in
   let s := sq s (fPIO, n, c) 0 in
+  let s := addq s (fPEND, n, Ext) (- io) in
+  let s := addq s (fSRV, n, Ext) io in
   let s := addq s (fcOS, n, c) (o_os o) in
+  let s := match c with
+           | Nd c' => sl s (fSP, c', Nd n) (add_at (slt (C c')) (o_os o) (gl s (fSP, c', Nd n)))
+           | Ext => s end in
   (s, o_oh o).
 Definition serve (s : st) (n : N) (il0 made : Q) : st :=
   let s := sq s (fDMFS, n, Ext) 0 in
@@ -226,16 +240,12 @@ Definition fill_rate (s : st) (n : N) : st :=
   let dc := gq s (fDC, n, Ext) in
   sq s (fFR, n, Ext) (if qltb 0 dc then gq s (fDMC, n, Ext) / dc else 1).
 
-(* sim._propagate_shipment_downstream *)
-Definition propagate (s : st) (n : N) : st :=
-  fold_left (fun s c => sl s (fSP, c, Nd n) (add_at (slt (C c)) (gq s (fOS, n, Nd c)) (gl s (fSP, c, Nd n)))) (succs (C n)) s.
-
 Definition ships_action (s : st) (n : N) : st :=
   let il0 := gq s (fIL, n, Ext) in
   let s := recv_ship s n in
   let '(s, made) := produce s n in
   let s := serve s n il0 made in
-  propagate (fill_rate s n) n.
+  fill_rate s n.
 
 (* ---------- visit orders (the two depth-first traversals of sim.step) ---------- *)
 Fixpoint dfs_orders (fuel : nat) (acc : list N * list N) (n : N) : list N * list N :=   (* (visited, post-order) *)
@@ -275,7 +285,8 @@ Definition next_node (s : st) (n : N) : st :=
   let c := C n in
   let s := fold_left (fun s p => let s := if disk n dTP then s else sl s (fSP, n, p) (shift_sp (gl s (fSP, n, p))) in
                                  sq (sq s (fIS, n, p) 0) (fOQ, n, p) 0) (suppliers c) s in
-  let s := fold_left (fun s x => let s := sl s (fOP, n, x) (shift_op (gl s (fOP, n, x))) in
+  let s := fold_left (fun s x => let s := addq s (fLOST, n, x) (hd0 (gl s (fOP, n, x))) in
+                                 let s := sl s (fOP, n, x) (shift_op (gl s (fOP, n, x))) in
                                  sq (sq s (fIO, n, x) 0) (fOS, n, x) 0) (customers c) s in
   sq (sq (sq s (fOQFG, n, Ext) 0) (fDMFS, n, Ext) 0) (fFR, n, Ext) 0.
 Definition next_period (s : st) : st := fold_left next_node (nodes NW) s.
